@@ -568,3 +568,37 @@ def rule_f(ctx, ix):
                       % (norm(c)[:80], ', '.join(norm(a) for a in bad)), where=where(f, c))
     if n < 2:
         raise AnalysisError('CoordinateComponent._calculate: only %d calls of the coordinate transformation found' % n)
+    # index arrays of a view may have different (broadcastable) shapes - np.ix_ - and numpy indexing broadcasts them.  The
+    # single-axis transformation shapes its result after its FIRST input, so on the index-array path the positions have to be
+    # brought to a common shape before (unless the transformation does so itself)
+    from .. import cond as _cd
+    from ..util import expand_locals
+    helper = ix.func(HELPERS + '.pixel2world_single_axis')
+    shp = [st for st in walk_no_nested(helper.node) if isinstance(st, ast.Assign) and isinstance(st.targets[0], ast.Name)
+           and 'shape' in st.targets[0].id and '.shape' in unparse(st.value)]
+    helper_broadcasts = bool(shp) and all('broadcast' in unparse(st.value) for st in shp)
+    pm = parent_map(f.node)
+    narr = 0
+    for c, state in sinks:
+        st_ = c
+        while st_ is not None and not isinstance(st_, ast.stmt):
+            st_ = pm.get(id(st_))
+        pc = _cd.path_condition(f.node, st_, expand=False) if st_ is not None else None
+        if pc is None:
+            continue
+        arr = [a for a in _cd.atoms(pc) if a.startswith('isinstance(') and 'ndarray' in a and view_p in a]
+        try:
+            on_array_path = any(_cd.implies(pc, _cd.T(a)) for a in arr)
+        except ValueError:
+            on_array_path = False
+        if not on_array_path:
+            continue
+        narr += 1
+        txt = ' '.join(unparse(expand_locals(f.node, a)) for a in c.args)
+        ok = helper_broadcasts or any(k in txt for k in ('broadcast_arrays', 'np.broadcast(', 'meshgrid'))
+        ctx.ob(R, '%s index arrays' % f.construct, 'index arrays of a view are broadcast against each other before they are transformed', ok,
+               detail='on the index-array path `%s` is handed the positions of each axis with the shapes the caller\'s index arrays have: '
+                      'for data[world, np.ix_(rows, cols)] these are (n, 1) and (1, m), the transformation shapes its result after the '
+                      'first, and the request raises ValueError instead of returning full[view]' % norm(c)[:80], where=where(f, c))
+    if narr < 1:
+        raise AnalysisError('CoordinateComponent._calculate: the index-array path is no longer recognised')
